@@ -173,7 +173,7 @@ impl<T: Semiring> WmcParams<T> {
             final(self).has_weight(lbl), final(self).wview()(lbl.0) == (low, high),
             forall|v: VarLabel| v != lbl && old(self).has_weight(v) ==> #[trigger] final(self).has_weight(v) && final(self).wview()(v.0) == old(self).wview()(v.0),
             final(self).one == old(self).one, final(self).zero == old(self).zero,
-//%% @loop 1 /^while n >= self\.var_to_val\.len\(\)$/
+//%% @loop 1 /^while n .*self\.var_to_val\.len\(\)$/
             invariant
                 n == lbl.0, n < usize::MAX, self.one == old(self).one, self.zero == old(self).zero,
                 old(self).var_to_val@.len() <= self.var_to_val@.len(),
